@@ -33,18 +33,24 @@ class UnixModel:
     def __init__(self, marker):
         self.marker = marker
 
+    def strip(self, s):
+        """the part after the marker: the configured marker (which may be several characters, e.g. Solaris' *LK*) or one marker character"""
+        if not s:
+            return ""
+        return s[len(self.marker):] if s.startswith(self.marker) else s[1:]
+
     def disable(self, s):
         if s is None:
             return self.marker
         if is_disabled_form(s):
-            s = s[1:] if s else ""
+            s = self.strip(s)
         return self.marker + s
 
     def enable(self, s):
         """-> string or ValueError"""
         if not is_disabled_form(s):
             return s
-        rest = s[1:] if s else ""
+        rest = self.strip(s)
         if rest:
             return rest
         return ValueError
@@ -347,7 +353,7 @@ def cross_marker(run):
 
 def body(run):
     shards = []
-    for disabled, marker in (("unix_disabled", "!"), ("unix_disabled", "*"), ("django_disabled", "!")):
+    for disabled, marker in (("unix_disabled", "!"), ("unix_disabled", "*"), ("unix_disabled", "*LK*"), ("django_disabled", "!")):
         for p in range(4):
             shards.append(dict(disabled=disabled, marker=marker, part=p, parts=4))
     run.parallel("checks.c18", "histories", shards, timeout=900 if run.tier == "quick" else 3600)
